@@ -13,6 +13,8 @@ import (
 	"github.com/MichaelMure/git-bug/zzverif/vrepo"
 )
 
+var vhCompareAuthors bool
+
 func vhBugId(n int) entity.Id { return entity.Id(fmt.Sprintf("%08x%056x", 0xb0000000+n, 0)) }
 func vhOpId(n int) entity.Id  { return entity.Id(fmt.Sprintf("%08x%056x", 0xc0000000+n, 0)) }
 
@@ -93,6 +95,15 @@ func vhCoherent(c *RepoCache, w *vhWorld, tag string) {
 				}
 			}
 			rt.Assert(len(ls.Labels) == len(rs.Labels) && len(ls.Timeline) == len(rs.Timeline), "labels-timeline-as-in-rebuild"+tag)
+			// the people shown with the bug are the current versions of their identities.
+			// Compared only where the outcome does not depend on the schedule: the cache
+			// builds its sub-caches in parallel, and whether a bug loaded during the build
+			// shares its author's IdentityCache instance with the identity sub-cache depends
+			// on which goroutine got there first (DESIGN §11.3, open C11 finding).
+			if vhCompareAuthors && ls.Author != nil && rs.Author != nil {
+				rt.Assert(ls.Author.Id() == rs.Author.Id(), "bug-author-as-in-rebuild"+tag)
+				rt.Assert(ls.Author.Name() == rs.Author.Name(), "bug-author-name-as-in-rebuild"+tag)
+			}
 		}
 		// searchable: the index document exists
 		li, _ := w.r.GetIndex("bugs")
@@ -188,10 +199,14 @@ func vhDrain(ch <-chan entity.MergeResult) []entity.MergeResult {
 // real RepoCache.MergeAll runs: the cache must again serve what a rebuild serves -
 // new and updated bugs listed, resolved with the merged history, and searchable.
 func VH_C11_mergeall() {
+	vhCompareAuthors = true
+	defer func() { vhCompareAuthors = false }()
 	w := vhNewWorld()
 	w.r.Remotes["origin"] = "url"
 	id0, h0 := w.storeBug(0, w.alice, "t0", 0)
 	w.r.SetRef("refs/bugs/"+id0.String(), h0)
+	idb, hb := w.storeBug(3, w.bob, "by bob", 0)
+	w.r.SetRef("refs/bugs/"+idb.String(), hb)
 	w.syncClocks()
 	c, err := NewRepoCacheNoEvents(w.r)
 	rt.Assert(err == nil, "cache-builds")
@@ -226,7 +241,9 @@ func VH_C11_mergeall() {
 	case 3: // a new identity
 		identity.VHStoreIdentity(w.r, "carol", 1, false, "origin")
 		rt.Cover("new-identity")
-	case 4: // a new version of bob
+	case 4: // a new version of bob, who wrote a bug that is loaded in this cache
+		_, lerr := c.Bugs().Resolve(idb)
+		rt.Assert(lerr == nil, "bug-of-the-updated-identity-loaded")
 		h := identity.VHAppendVersion(w.r, w.bob, "robert")
 		w.r.SetRef(identity.VHRemoteRef("origin", w.bob.Id()), h)
 		rt.Cover("identity-updated")
